@@ -81,7 +81,8 @@ def check(repo: Repo, run: Run) -> None:
            "every exception class of lark's LALR front end is converted to CELParseError" if not bad else f"{bad} can escape CELParser.parse",
            cp.loc(parse))
     located = False
-    for n in ast.walk(parse):
+    found_raise = None
+    for n in ast.walk(cp.func_n("CELParser.parse")):
         if isinstance(n, ast.ExceptHandler) and n.type is not None and n.name:
             names = {(dotted(e) or "").split(".")[-1] for e in (n.type.elts if isinstance(n.type, ast.Tuple) else [n.type])}
             if {"UnexpectedToken", "UnexpectedCharacters"} <= names or "UnexpectedInput" in names:
@@ -89,8 +90,13 @@ def check(repo: Repo, run: Run) -> None:
                     if isinstance(r, ast.Raise) and isinstance(r.exc, ast.Call) and (dotted(r.exc.func) or "").endswith("CELParseError"):
                         kws = {k.arg: ast.unparse(k.value) for k in r.exc.keywords}
                         located = kws.get("line") == f"{n.name}.line" and kws.get("column") == f"{n.name}.column"
-    run.ob("C04.E4", "CELParser.parse|position", located,
-           "the handler for UnexpectedToken/UnexpectedCharacters passes the exception's line and column to CELParseError", cp.loc(parse))
+                        found_raise = kws
+    if found_raise is not None and not located:
+        run.ob("C04.E4", "CELParser.parse|position", False,
+               f"the handler for UnexpectedToken/UnexpectedCharacters raises CELParseError with {found_raise}: the position must be the exception's own line and column", cp.loc(parse))
+    else:
+        run.shape("C04.E4", "CELParser.parse|position", located,
+                  "the handler for UnexpectedToken/UnexpectedCharacters passes the exception's line and column to CELParseError", cp.loc(parse))
     # E3 -----------------------------------------------------------------
     # shape assertions in the interpreter: every `raise CELSyntaxError/CELUnsupportedError/RuntimeError`
     # that guards the shape of the tree must be unreachable for parser-shaped trees (the engine types
